@@ -49,6 +49,14 @@ def sources(text, root):
     yield 'open-text', lambda: open(p)
     yield 'open-binary', lambda: open(p, 'rb')
     yield 'nonseekable', lambda: NonSeek(io.BytesIO(text.encode()))
+    # other encodings: the ASCII bytes of '<!DOCTYPE' do not occur in UTF-16 data; a BOM precedes the declaration
+    t16 = text.replace('encoding="UTF-8"', 'encoding="UTF-16"')
+    for enc, data in (('utf-16', t16.encode('utf-16')), ('utf-16-be-bom', b'\xfe\xff' + t16.encode('utf-16-be')), ('utf-8-sig', text.encode('utf-8-sig'))):
+        p2 = os.path.join(root, f'doc-{enc}.xml'); open(p2, 'wb').write(data)
+        yield f'bytes-{enc}', (lambda d=data: d)
+        yield f'BytesIO-{enc}', (lambda d=data: io.BytesIO(d))
+        yield f'path-{enc}', (lambda q=p2: q)
+        yield f'nonseekable-{enc}', (lambda d=data: NonSeek(io.BytesIO(d)))
 
 
 def run(tier, seed, open_findings):
@@ -77,7 +85,7 @@ def run(tier, seed, open_findings):
                 elif out[0].startswith('OTHER'): prob = 'non-library exception'
                 elif 'TOPSECRET' in out[1]: prob = 'external entity expanded'
                 if prob: fails.append(dict(case=dict(payload=pname, defuse=defuse, source=sname), observed=dict(outcome=out, problem=prob), required='forbidden before any expansion / same tree'))
-        out = [result('C13.instance_payloads', f'{len(payloads(secret, 10))} payloads x 4 defuse modes x 9 source kinds (instance role)', n, fails, exhaustive=True,
+        out = [result('C13.instance_payloads', f'{len(payloads(secret, 10))} payloads x 4 defuse modes x 21 source kinds (text, bytes, paths, streams; UTF-8, UTF-8 with BOM, UTF-16 LE/BE with BOM) (instance role)', n, fails, exhaustive=True,
                       samples=[dict(payload='external', defuse='always', source='nonseekable')])]
         # schema roles: main schema and included schema carrying a declaration
         sfails = []; m = 0
